@@ -113,7 +113,15 @@ def run(pid, tier, seed, a, t0):
             symex._cell_ctr[0] = 0
             symex.OPAQUE_DEFS.clear()
             ex = symex.Executor(c, specmod)
-            obls = ex.run()
+            if c.options.get("trusted"):
+                # a contract that is assumed, not verified (its body is outside the subset); it must still name a real function
+                if ex.fnode is None:
+                    raise symex.ContractMismatch("function %s not found in %s" % (c.qualname, c.module))
+                o = symex.Obligation(c.key, "assumed", "trusted-contract", ex.fnode.lineno, [], z3.BoolVal(True), "; ".join(c.ensures))
+                o.assumed = c.options["trusted"]
+                obls = [o]
+            else:
+                obls = ex.run()
             if not obls:
                 raise symex.ContractMismatch("no obligations generated for %s" % c.key)
             for o in obls:
